@@ -449,74 +449,174 @@ def rule_ast_leak(prog, rep, tier, anchors=("docstring_parsers._infer_default",)
     which the default can still be a syntax node - no branch condition has said it is a str / a constant node / None-like, no
     statement has converted it (get_value, literal_eval, to_code, formatting) - the function may not return: a path that
     assigns something that lets nodes through (`unquote`) or skips the node branch leaves a raw `ast` object in the IR."""
-    from sa.cfg import CFG, facts
-    from sa.rules.falsy import _is_default_read
+    from sa.rules import nodeflow
     for q in anchors:
         fi = prog.fn(q)
-        cfg = CFG(fi.node)
-        n_paths = 0
-        leaks = []
-        for path in cfg.paths():
-            if path[-1][0].kind != "RETURN":
-                continue
-            n_paths += 1
-            may_be_node = True
-            left_at = None
-            for node, label in path:
-                st = node.stmt
-                # statements that rewrite the default
-                if isinstance(st, ast.Assign) and any(_is_default_read(t) for t in st.targets) and node.kind not in ("if", "for", "while", "try"):
-                    v = st.value
-                    def converts(c):
-                        if getattr(c.func, "id", getattr(c.func, "attr", None)) in CONVERTERS:
-                            return True
-                        # a package helper that does the conversion (`_literal_or_code_quoted(node)`)
-                        if isinstance(c.func, (ast.Name, ast.Attribute)):
-                            for t in prog.resolve_expr_fn(c.func, c):
-                                if isinstance(t, FunctionInfo) and any(isinstance(x, ast.Call) and getattr(x.func, "id", getattr(x.func, "attr", None)) in ("literal_eval", "to_code", "get_value", "unparse")
-                                                                        for x in ast.walk(t.node)):
-                                    return True
-                        return False
-                    conv = any(isinstance(c, ast.Call) and converts(c) for c in ast.walk(v)) \
-                        or isinstance(v, (ast.Constant, ast.JoinedStr)) or (isinstance(v, ast.Name) and not _is_default_read(v))
-                    if conv:
-                        may_be_node = False
-                    else:
-                        left_at = st  # e.g. unquote(default): a node passes through unchanged
-                if label is None or label[0] in ("iter", "except"):
-                    if label is not None and label[0] == "except":
-                        # the handler of a failed conversion: what it assigns is judged by the Assign case above
-                        pass
-                    continue
-                for atom, pol in facts(label[0], label[1]):
-                    if isinstance(atom, ast.Call) and isinstance(atom.func, ast.Name) and atom.func.id == "isinstance" and len(atom.args) == 2 and _is_default_read(atom.args[0]):
-                        names = {x.id for x in ast.walk(atom.args[1]) if isinstance(x, ast.Name)} | {x.attr for x in ast.walk(atom.args[1]) if isinstance(x, ast.Attribute)}
-                        if pol and names & {"str", "int", "float", "bool", "complex"} and not (names & AST_KIND_NAMES):
-                            may_be_node = False
-                        if not pol and "AST" in names:
-                            may_be_node = False
-                    elif isinstance(atom, ast.Compare) and len(atom.ops) == 1 and isinstance(atom.ops[0], (ast.In, ast.Eq, ast.Is)) and _is_default_read(atom.left) and pol:
-                        may_be_node = False  # equal to / among plain values: not a node
-                    elif isinstance(atom, ast.Call) and atom.args and _is_default_read(atom.args[0]) and pol and isinstance(atom.func, (ast.Name, ast.Attribute)):
-                        # a package predicate that only a str satisfies (code_quoted)
-                        for t in prog.resolve_expr_fn(atom.func, atom):
-                            if isinstance(t, FunctionInfo) and t.params() and any(
-                                    isinstance(c, ast.Call) and isinstance(c.func, ast.Name) and c.func.id == "isinstance" and len(c.args) == 2
-                                    and isinstance(c.args[0], ast.Name) and c.args[0].id == t.params()[0] and "str" in {x.id for x in ast.walk(c.args[1]) if isinstance(x, ast.Name)}
-                                    for c in ast.walk(t.node)):
-                                may_be_node = False
-            if may_be_node:
-                leaks.append((path, left_at))
-        if n_paths == 0:
+        try:
+            it, ends = nodeflow.analyse(prog, fi)
+        except nodeflow.TooComplex as x:
+            raise AnalysisError("AST-LEAK: %s could not be followed: %s" % (q, x))
+        if not ends:
             raise AnalysisError("AST-LEAK: no returning path in %s" % q)
+        leaks = [s for s in ends if s.may(nodeflow.KEY)]
+        how = "; ".join(sorted({"%s %s" % (k, v) for k, v in it.notes})) or "no helper inlined"
         if leaks:
-            path, left_at = leaks[0]
-            taken = [src(l[0], 40) + (" is true" if l[1] else " is false") for n_, l in path if l is not None and l[0] not in ("iter", "except")][:6]
+            s = leaks[0]
             rep.violation(Finding(
                 "AST-LEAK", prog.owner_name(fi), "node-default-unconverted",
-                "%d of %d paths through %s return while the default can still be a syntax node (a signature default such as -1 or len(xs)): e.g. when %s%s. "
+                "%d of %d abstract end states of %s return while the default can still be a syntax node (a signature default such as -1 or len(xs)): e.g. when %s%s. "
                 "The IR then holds a raw ast object where a value or code-quoted text belongs" % (
-                    len(leaks), n_paths, q, "; ".join(taken) or "no branch is taken",
-                    " - `%s` lets a node through unchanged" % src(left_at, 50) if left_at is not None else ""), loc(prog, left_at or fi.node)))
+                    len(leaks), len(ends), q, "; ".join(s.trail) or "no branch is taken",
+                    " - `%s` lets a node through unchanged" % src(s.left_at, 50) if s.left_at is not None else ""), loc(prog, s.left_at or fi.node)))
         else:
-            rep.holds("AST-LEAK", "%s: %d returning paths" % (q, n_paths), loc(prog, fi.node), "on each the default is converted, or a condition has excluded a syntax node")
+            rep.holds("AST-LEAK", "%s: %d abstract end states" % (q, len(ends)), loc(prog, fi.node),
+                      "in each the default was converted, or a condition has excluded a syntax node (%s)" % how)
+
+
+# ---------------------------------------------------------------------------- PROSE-GATE
+def _key_test(atom, key):
+    """('missing'|'present', record expr) when the atom, taken as TRUE, says the record lacks / has (a truthy) `key`; else None.
+    Forms: `"k" in X`, `"k" not in X`, `X.get("k")`, `X["k"]`, `X.get("k") is None`, `X.get("k") is not None`"""
+    def read(e):
+        if isinstance(e, ast.Subscript) and isinstance(e.slice, ast.Constant) and e.slice.value == key:
+            return e.value
+        if isinstance(e, ast.Call) and isinstance(e.func, ast.Attribute) and e.func.attr == "get" and e.args and isinstance(e.args[0], ast.Constant) and e.args[0].value == key:
+            return e.func.value
+        return None
+    if isinstance(atom, ast.Compare) and len(atom.ops) == 1:
+        op, l, r = atom.ops[0], atom.left, atom.comparators[0]
+        if isinstance(l, ast.Constant) and l.value == key and isinstance(op, (ast.In, ast.NotIn)):
+            return ("present" if isinstance(op, ast.In) else "missing", r)
+        if read(l) is not None and isinstance(r, ast.Constant) and r.value is None and isinstance(op, (ast.Is, ast.IsNot, ast.Eq, ast.NotEq)):
+            return ("missing" if isinstance(op, (ast.Is, ast.Eq)) else "present", read(l))
+        return None
+    rec = read(atom)
+    if rec is not None:
+        return ("present", rec)
+    return None
+
+
+def _dnf(test, polarity):
+    """alternatives (lists of (atom, polarity)) under which `test` has truth value `polarity`"""
+    if isinstance(test, ast.UnaryOp) and isinstance(test.op, ast.Not):
+        return _dnf(test.operand, not polarity)
+    if isinstance(test, ast.BoolOp):
+        conj = isinstance(test.op, ast.And) == bool(polarity)
+        parts = [_dnf(v, polarity) for v in test.values]
+        if conj:
+            out = [[]]
+            for p in parts:
+                out = [a + b for a in out for b in p][:64]
+            return out
+        return [alt for p in parts for alt in p][:64]
+    return [[(test, polarity)]]
+
+
+def rule_prose_gate(prog, rep, tier, writer="defaults_utils.set_default_doc", entry="emit.docstring"):
+    """PROSE-GATE (C01): in a stand-alone docstring the prose line is the only carrier of a default.  Whether the default
+    sentence is written may therefore not hang on the parameter *having prose*: (writer clause) the function that writes the
+    announcement does not leave in front of it because the record lacks the key 'doc' (or holds an empty one) while a default
+    may be there; (call-site clause) on the docstring writer's path no call of that function, and no use of what it returned,
+    stands under a test of the IR's own prose - the test belongs on the text that would be written."""
+    from sa.cfg import CFG, facts, expr_guards
+    from sa.rules.table import _announce_reader
+    folder = Folder(prog)
+    R, casefold, _ = _announce_reader(prog, folder)
+    norm = (lambda s: s.casefold()) if casefold else (lambda s: s)
+    W = prog.fn(writer)
+    holes = _announcement_holes(W, R, norm)
+    if not holes:
+        raise AnalysisError("PROSE-GATE: %s no longer writes the default announcement" % writer)
+    # ---- writer clause
+    tpl = holes[0][0]
+    st_of = tpl
+    while not isinstance(st_of, ast.stmt):
+        st_of = st_of._parent
+    cfg = CFG(W.node)
+    n_paths = n_bad = 0
+    example = None
+    for path in cfg.paths():
+        if path[-1][0].kind != "RETURN":
+            continue
+        if any(node.stmt is st_of for node, _ in path):
+            continue
+        n_paths += 1
+        alts = [[]]
+        for node, label in path:
+            if label is None or label[0] in ("iter", "except"):
+                continue
+            alts = [a + b for a in alts for b in _dnf(label[0], label[1])][:256]
+        for alt in alts:
+            doc_missing = default_missing = no_record = False
+            for atom, pol in alt:
+                for key in ("doc", "default"):
+                    kt = _key_test(atom, key)
+                    if kt is None:
+                        continue
+                    state = kt[0] if pol else {"missing": "present", "present": "missing"}[kt[0]]
+                    if key == "doc" and state == "missing":
+                        doc_missing = (atom, pol)
+                    if key == "default" and state == "missing":
+                        default_missing = True
+                if isinstance(atom, ast.Compare) and len(atom.ops) == 1 and isinstance(atom.ops[0], ast.Is) and isinstance(atom.comparators[0], ast.Constant) \
+                        and atom.comparators[0].value is None and isinstance(atom.left, ast.Name) and pol:
+                    no_record = True
+            if doc_missing and not default_missing and not no_record:
+                n_bad += 1
+                example = example or doc_missing
+    if example is not None:
+        rep.violation(Finding(
+            "PROSE-GATE", prog.owner_name(W), "writer-leaves-without-prose",
+            "%s returns without writing the default sentence when `%s` is %s, whether or not the record has a default: a parameter that has a default and no prose "
+            "(prose is optional) is emitted without its default, and a stand-alone docstring has no other place for it" % (
+                writer, src(example[0], 50), "true" if example[1] else "false"), loc(prog, example[0])))
+    else:
+        rep.holds("PROSE-GATE", "%s: %d returning paths that do not write the sentence" % (writer, n_paths), loc(prog, W.node),
+                  "none of them is taken because prose is missing while a default may be present")
+    # ---- call-site clause
+    ent = prog.fn(entry)
+    n_sites = 0
+    for fi in prog.reachable([ent]):
+        if fi is W:
+            continue
+        calls = [c for c in ast.walk(fi.node) if isinstance(c, ast.Call) and isinstance(c.func, (ast.Name, ast.Attribute)) and enclosing_fn_of(c) is fi.node
+                 and any(t is W for t in prog.resolve_expr_fn(c.func, c))]
+        if not calls:
+            continue
+        derived = set()
+        for st in ast.walk(fi.node):
+            if isinstance(st, ast.Assign) and any(x in calls for x in ast.walk(st.value)):
+                derived |= {t.id for t in st.targets if isinstance(t, ast.Name)}
+
+        def raw_doc_test(atom):
+            kt = _key_test(atom, "doc")
+            if kt is None:
+                return False
+            rec = kt[1]
+            return not any(x in calls for x in ast.walk(rec)) and not (isinstance(rec, ast.Name) and rec.id in derived)
+        uses = list(calls) + [n for n in ast.walk(fi.node) if isinstance(n, ast.Name) and n.id in derived and isinstance(n.ctx, ast.Load)]
+        bad = []
+        for u in uses:
+            n_sites += 1
+            for t, pol in expr_guards(u, stop=fi.node):
+                for alt in _dnf(t, pol):
+                    for atom, p_ in alt:
+                        if raw_doc_test(atom):
+                            bad.append((u, atom))
+        if bad:
+            u, atom = bad[0]
+            rep.violation(Finding(
+                "PROSE-GATE", prog.owner_name(fi), "written-only-with-prose",
+                "%d place(s) where the text with the default sentence (%s) is used only under a test of the parameter's own prose (`%s`): a parameter with a default and "
+                "no prose gets no line at all, and its default is lost when the docstring is read back" % (len({id(b[0]) for b in bad}), src(u, 40), src(atom, 40)), loc(prog, atom)))
+        else:
+            rep.holds("PROSE-GATE", "%s: %d use(s) of the written text" % (prog.owner_name(fi), len(uses)), loc(prog, fi.node), "none under a test of the IR's own prose")
+    if n_sites == 0:
+        raise AnalysisError("PROSE-GATE: no call of %s on the path of %s" % (writer, entry))
+
+
+def enclosing_fn_of(node):
+    p = getattr(node, "_parent", None)
+    while p is not None and not isinstance(p, (ast.FunctionDef, ast.AsyncFunctionDef)):
+        p = getattr(p, "_parent", None)
+    return p
